@@ -144,7 +144,8 @@ func init() {
 		o.Guarded(ix, "set-index-guard", "indexing", sAdded)
 		o.Check(e.Arg(ix, 1) == "p0.Silence", "set-index-arg", "setSilence must index the silence it stored", ix)
 		smg := o.One(e.Calls(ss, "(am/silence.state).merge"), "set-merge", "setSilence must merge into the state", ss)
-		o.ForcedAfter(smg, "set-index-forced", "an added silence must be indexed", IsInstr(ix), sAdded)
+		// (merge reports "added" only together with "changed": rows of the merge table, C09.1)
+		o.ForcedAfter(smg, "set-index-forced", "an added silence must be indexed", IsInstr(ix), sAdded, sChanged)
 		var sb []ssa.Instruction
 		for _, in := range AllInstrs(ss) {
 			if c, ok := in.(*ssa.Call); ok && calleeName(&c.Call) == "dyn" && strings.HasPrefix(e.X(ss, c), "dyn(fn=recv.broadcast") {
